@@ -15,6 +15,7 @@ func TestC07(t *testing.T) {
 	p := defaultProfile()
 	p.MinBlocks, p.MaxBlocks = 8, 30
 	p.Alt, p.PAlt = govHeavyProfile(), 35
+	p.W["deployp"], p.W["callp"] = 4, 10
 	runCheck(t, "C07", p, func(src Source, st *Stats) *Outcome {
 		if gs, ok := src.(*GenSource); ok {
 			gs.OnEndBlock = func(w *World, b *Block) {
